@@ -19,7 +19,8 @@ FLOOR_CALLS = 1400
 # rules of one pack that are also necessary conditions of another property: (pack, rule prefixes, key filter, why)
 SHARED = {
     "C01": [("C15", ("C15.S1", "C15.S3", "C15.S4", "C15.S5", "C15.S6"), None, "the polygon that must contain the point is produced through the inverse face projection"),
-            ("C19", ("C19.A5",), None, "longitudes that differ by whole turns (and probes across the antimeridian) name the same point only if every wrap moves by the full period")],
+            ("C19", ("C19.A5",), None, "longitudes that differ by whole turns (and probes across the antimeridian) name the same point only if every wrap moves by the full period"),
+            ("C02", ("C02.R2",), None, "the lookup accepts an estimate through a5cell_contains_point; the polygon that has to contain the point is the one get_pentagon reports for that cell, at every resolution")],
     "C02": [("C01", ("C01.R1", "C01.R2", "C01.R3", "C01.R4", "C01.R5", "C01.R7", "C01.R8"), None, "a point inside a cell's reported polygon maps back to that cell only if the lookup returns a cell of the asked resolution accepted by the exact containment test evaluated at the query point itself"),
             ("C15", ("C15.S1", "C15.S3", "C15.S4", "C15.S5", "C15.S6"), None, "the reported centre and boundary come from the inverse face projection, the lookup from the forward one")],
     "C04": [("C15", ("C15.S1", "C15.S3", "C15.S4", "C15.S5", "C15.S6"), None, "cell areas are equal only if the boundary is unprojected with the matching spherical/squashed triangle and an accurate angle helper")],
